@@ -20,6 +20,11 @@ theorem resegment_starts_sync (chunkDur t0 : Nat) (samples : List Sample) :
     ∀ g ∈ (resegment chunkDur t0 samples).tail, ∃ s rest, g = s :: rest ∧ s.sync = true :=
   Segmenter.resegment_starts_sync chunkDur t0 samples
 
+/-- **no empty segment is written** when there is at least one sample (the first segment starts with the first
+    sample, whatever its presentation time) -/
+theorem resegment_nonempty (chunkDur t0 : Nat) (samples : List Sample) (h : samples ≠ []) :
+    ∀ g ∈ resegment chunkDur t0 samples, g ≠ [] := Segmenter.resegment_nonempty chunkDur t0 samples h
+
 /-- **Fragmentify conserves the sample sequence** and produces no empty fragment -/
 theorem fragmentify_conserves (duration : Nat) (frags : List (List Sample)) :
     (fragmentify duration frags).flatten = frags.flatten ∧ ∀ g ∈ fragmentify duration frags, g ≠ [] :=
